@@ -54,6 +54,9 @@ class NpSym:
         if isinstance(e, ast.Attribute):
             if src(e) in ("np.pi", "math.pi"):
                 return PI
+            if e.attr == "size" and not isinstance(e.value, ast.Call):
+                # number of elements of an array the model does not track: an unknown positive integer
+                return Symbol("size_" + "".join(ch if ch.isalnum() else "_" for ch in src(e.value)), integer=True, positive=True)
             raise Undecided(f"unknown attribute `{src(e)}`")
         if isinstance(e, ast.BinOp):
             a, b = self.ev(e.left), self.ev(e.right)
@@ -100,6 +103,12 @@ class NpSym:
                 return sp.sqrt(self.ev(e.args[0]))
             if f in ("np.floor", "floor"):
                 return sp.floor(self.ev(e.args[0]))
+            if f in ("np.round", "np.rint", "round", "np.around") and len(e.args) == 1:
+                return Function("round")(self.ev(e.args[0]))
+            if f in ("np.ceil", "ceil"):
+                return sp.ceiling(self.ev(e.args[0]))
+            if f == "len" and len(e.args) == 1 and not isinstance(e.args[0], ast.Call):
+                return Symbol("size_" + "".join(ch if ch.isalnum() else "_" for ch in src(e.args[0])), integer=True, positive=True)
             if f in ("np.abs", "abs"):
                 return sp.Abs(self.ev(e.args[0]))
             if f in ("np.exp", "exp"):
